@@ -3,11 +3,14 @@ import json, sys, os
 sys.path.insert(0, os.path.dirname(os.path.dirname(os.path.abspath(__file__))))
 from vt.props import PROPS
 from vt.manifest_texts import texts_for, NOT_APPLICABLE
+from vt.check import run_property
 
 BASE = "cd /repo && /venv/bin/python -m pytest -ra -q -p no:cacheprovider --timeout=900 --continue-on-collection-errors"
 checks = []
 for pid in sorted(PROPS):
-    t = texts_for(pid, PROPS[pid]['explanation'])
+    _code, _results, _v, _k = run_property(pid, "quick", quiet=True, write=False, controls=False)
+    rules = " Rules evaluated on every run: " + "; ".join(f"{r.rule} — {r.title}" for r in _results) + "."
+    t = texts_for(pid, PROPS[pid]['explanation'] + rules)
     checks.append({
         "property_id": pid,
         "quick_cmd": f"python3 -m vt.check {pid} --tier quick",
@@ -32,7 +35,7 @@ man = {
     "engines": [{"name": "vt", "path": "/verif/vt", "serves_properties": sorted(PROPS),
                  "kind_free_text": "repository-specific static analyser: ast loader, symbol/class model, statement CFG with dominators, "
                                    "def-use / definite assignment, resolved call graph, constant folder, role normaliser, finite-domain guard evaluation; "
-                                   "~40 rules (path, mirror, table, provenance, spec-shape)"}],
+                                   "~75 rules (path, mirror, table, provenance, spec-shape)"}],
     "checks": checks,
     "notes": "Static analysis only: every verdict is computed from /repo's source on disk at run time; no repo code is imported or executed. "
              "Exit 0 held / 1 VIOLATION / 2 ANALYSIS-ERROR. Known findings: /verif/known_findings.json. See DESIGN.md.",
